@@ -291,6 +291,90 @@ func installStdlib(m *Machine) {
 		}
 		return out, nil
 	}
+	// strings.Builder / bytes.Buffer used as a string accumulator by a helper
+	for _, kind := range []string{"strings.Builder", "bytes.Buffer"} {
+		kind := kind
+		buf := func(recv Value) (*Opaque, *Sym) {
+			o, ok := recv.(*Opaque)
+			if !ok {
+				return nil, nil
+			}
+			if o.Attrs == nil {
+				o.Attrs = map[string]Value{}
+			}
+			s, _ := o.Attrs["buf"].(*Sym)
+			if s == nil {
+				s = &Sym{}
+			}
+			return o, s
+		}
+		m.Ext["("+kind+").WriteString"] = func(m *Machine, pos token.Pos, recv Value, args []Value) (Value, error) {
+			o, s := buf(recv)
+			a, ok := args[0].(*Sym)
+			if o == nil || !ok {
+				return unknownCall(kind+".WriteString", args), nil
+			}
+			o.Attrs["buf"] = Concat(s, a)
+			return Tuple{int64(0), NilV{}}, nil
+		}
+		m.Ext["("+kind+").WriteByte"] = func(m *Machine, pos token.Pos, recv Value, args []Value) (Value, error) {
+			o, s := buf(recv)
+			c, ok := args[0].(int64)
+			if o == nil || !ok {
+				return unknownCall(kind+".WriteByte", args), nil
+			}
+			o.Attrs["buf"] = Concat(s, Lit(string(rune(c))))
+			return NilV{}, nil
+		}
+		m.Ext["("+kind+").WriteRune"] = func(m *Machine, pos token.Pos, recv Value, args []Value) (Value, error) {
+			o, s := buf(recv)
+			c, ok := args[0].(int64)
+			if o == nil || !ok {
+				return unknownCall(kind+".WriteRune", args), nil
+			}
+			o.Attrs["buf"] = Concat(s, Lit(string(rune(c))))
+			return Tuple{int64(0), NilV{}}, nil
+		}
+		m.Ext["("+kind+").String"] = func(m *Machine, pos token.Pos, recv Value, args []Value) (Value, error) {
+			_, s := buf(recv)
+			if s == nil {
+				return unknownCall(kind+".String", args), nil
+			}
+			return s, nil
+		}
+		m.Ext["("+kind+").Len"] = func(m *Machine, pos token.Pos, recv Value, args []Value) (Value, error) {
+			_, s := buf(recv)
+			if s != nil {
+				if c, ok := s.Concrete(); ok {
+					return int64(len(c)), nil
+				}
+			}
+			return &Unknown{Why: kind + ".Len()"}, nil
+		}
+		m.Ext["("+kind+").Grow"] = func(m *Machine, pos token.Pos, recv Value, args []Value) (Value, error) { return NilV{}, nil }
+	}
+	m.Ext["fmt.Fprintf"] = func(m *Machine, pos token.Pos, recv Value, args []Value) (Value, error) {
+		if len(args) >= 2 {
+			if o, ok := args[0].(*Opaque); ok && (o.Kind == "strings.Builder" || o.Kind == "bytes.Buffer") {
+				v, err := m.Ext["fmt.Sprintf"](m, pos, nil, args[1:])
+				if err != nil {
+					return nil, err
+				}
+				if s, ok := v.(*Sym); ok {
+					if o.Attrs == nil {
+						o.Attrs = map[string]Value{}
+					}
+					cur, _ := o.Attrs["buf"].(*Sym)
+					if cur == nil {
+						cur = &Sym{}
+					}
+					o.Attrs["buf"] = Concat(cur, s)
+					return Tuple{int64(0), NilV{}}, nil
+				}
+			}
+		}
+		return unknownCall("fmt.Fprintf", args), nil
+	}
 	m.Ext["fmt.Sprint"] = func(m *Machine, pos token.Pos, recv Value, args []Value) (Value, error) {
 		out := &Sym{}
 		for _, a := range args {
